@@ -99,6 +99,16 @@ def build_traces(path, tier, seed):
         add({"kind": "object", "dt": enc(dt), "xi": enc(xi), "a": enc_seq(a), "periods": enc_seq(periods), "raised": False, "q": q,
              "sd": enc_seq(got["s_d"]), "sv": enc_seq(got["s_v"]), "sa": enc_seq(got["s_a"])},
             {"kind": "object", "n": n, "dt": dt, "xi": xi, "min_dt_ratio": q, "T_over_dt": [p / dt for p in periods], "shape": shape})
+    # the two inputs named in known_findings.json (C03-input-energy-negative) are always exercised
+    for (n, a0, a1, ratio, xi, dt) in [(249, 0.2603, 0.2527, 0.2, 0.118, 0.005), (205, 0.967, 0.678, 0.35, 0.554, 0.005)]:
+        a = np.linspace(a0, a1, n)
+        T = ratio * dt
+        o = eqsig.AccSignal(a, dt)
+        ein = sdof.calc_input_energy_spectrum(o, periods=np.array([T]), xi=xi)
+        euke = sdof.calc_resp_uke_spectrum(o, periods=np.array([T]), xi=xi)
+        u, v, acc = sdof.response_series(a, dt, np.array([T]), xi)
+        add({"kind": "energy", "dt": enc(dt), "xi": enc(xi), "a": enc_seq(a), "T": enc(T), "v": enc_seq(v[0]), "ein": enc(float(ein[0])), "euke": enc(float(euke[0])), "raised": False},
+            {"kind": "energy", "n": n, "dt": dt, "xi": xi, "T_over_dt": ratio, "shape": "ramp %.4f..%.4f" % (a0, a1), "ein": float(ein[0])})
     nen = 20 if tier == "quick" else 200
     for i in range(nen):
         n = gen.length(rng, 3, 300 if tier == "quick" else 1500)
